@@ -13,13 +13,13 @@ from ..core import Prop, Workload
 SIZINGS = [(0.5, 0.5), (0.75, 0.3), (0.9, 0.1), (0.99, 0.01), (0.6, 0.7), (0.999, 0.25), (0.5, 1.9)]
 
 
-def build(P, rng, keys):
+def build(P, rng, keys, force_width=None):
     hname, hf = gen.pick_hash(rng, keys)
-    kind = rng.random()
+    kind = rng.random() if force_width is None else 0.0
     cls_name = rng.choice(["CountMinSketch"] * 4 + ["CountMeanSketch", "CountMeanMinSketch"])
     cls = getattr(P, cls_name)
     if kind < 0.75:
-        width = rng.choice([1, 1, 2, 2, 3, 3, 4, 5, 6, 7, 8, 50, 1000])
+        width = rng.choice([1, 1, 2, 2, 3, 3, 4, 5, 6, 7, 8, 50, 1000]) if force_width is None else force_width
         depth = rng.randint(1, 6)
         s = cls(width=width, depth=depth, **bl.kw_hash(hf))
         how = {"width": width, "depth": depth}
@@ -66,13 +66,13 @@ def probe_all(ctx, s, keys, true, where):
     ctx.count("full_probes")
 
 
-def wl_history(ctx, rng, case):
+def wl_history(ctx, rng, case, force_width=None):
     import probables as P
 
     keys = gen.universe(rng, rng.randint(2, 14))
-    s, cls, cls_name, hname, hf, how = build(P, rng, keys)
+    s, cls, cls_name, hname, hf, how = build(P, rng, keys, force_width)
     case.desc = dict(how, cls=cls_name, hash=hname, n_keys=len(keys), width_actual=s.width, depth_actual=s.depth)
-    ctx.observe("widths", s.width)
+    ctx.observe("widths", s.width, cap=3000)
     ctx.observe("depths", s.depth)
     ctx.observe("hash_kinds", hname)
     true = Counter({k: 0 for k in keys})
@@ -171,6 +171,14 @@ def wl_roomy_exact(ctx, rng, case):
     case.nontrivial = True
 
 
+def wl_width_sweep(ctx, rng, case):
+    """EVERY width from 1 upwards (one history each), then powers of two and their neighbours up to 2^20"""
+    extra = [w for e in range(9, 21) for w in (2**e - 1, 2**e, 2**e + 1)]
+    width = case.index + 1 if case.index < 300 else extra[(case.index - 300) % len(extra)]
+    ctx.maximum("width_sweep_max_width", width)
+    wl_history(ctx, rng, case, force_width=width)
+
+
 PROP = Prop(
     "C02",
     "exploration",
@@ -181,6 +189,7 @@ PROP = Prop(
     workloads=[
         Workload("history", wl_history, quick=1500, thorough=600000),
         Workload("roomy_exact", wl_roomy_exact, quick=150, thorough=24000),
+        Workload("width_sweep", wl_width_sweep, quick=336, thorough=3360),
     ],
     assumptions=["true counts kept by the harness; the unshared-counter predicate uses the sketch's public hashes() reduced mod width per row (documented addressing)",
                  "min mode: a counter that no other live key touches equals the key's true count, so the minimum over rows is exact (count-min definition)"],
